@@ -184,7 +184,8 @@ fn divergence(path: &[usize], la: &[String], lb: &[String]) -> J {
     let k = la.iter().zip(lb.iter()).position(|(x, y)| x != y).unwrap_or(la.len().min(lb.len()));
     let xa = la.get(k).cloned().unwrap_or_else(|| "<no more lines>".to_owned());
     let xb = lb.get(k).cloned().unwrap_or_else(|| "<no more lines>".to_owned());
-    json!({"path": path, "index": k, "class": class_of(&xa, &xb), "a": xa, "b": xb, "a_lines": la, "b_lines": lb})
+    json!({"path": path, "index": k, "class": class_of(&xa, &xb), "a": xa, "b": xb, "a_lines": la, "b_lines": lb,
+        "structural": skeleton(la) != skeleton(lb)})
 }
 
 /// the part of a node's observations that must agree for the two stories to be still "in step":
